@@ -241,6 +241,9 @@ func (fr *Frame) callFunction(fn *ssa.Function, args []Term, binds []Term, st *S
 	if !u.w.inRepo(pp) && pureLibraryPkgs[pp] {
 		u.libAssumed[fn.String()]++
 		if readOnlyLibPkgs[pp] {
+			if res, ok := fr.deterministicLibResults(fn, args, argVals, st); ok {
+				return res, st
+			}
 			return fr.freshResults(fn.Signature.Results(), st, "lib"), st
 		}
 		st2 := fr.havocPointerArgs(fn, args, argVals, st)
@@ -965,6 +968,15 @@ func (fr *Frame) execLookup(x *ssa.Lookup, st *State) *State {
 	present := u.define(fr.vname(x)+".ok", And(Neq(xv, NilLoc), Select(dom, kv, SBool)))
 	v := u.define(fr.vname(x), Ite(present, Select(val, kv, vs), w.zero(mt.Elem())))
 	fr.assumeTypeInv(st, v, mt.Elem())
+	// references stored in a map are allocated
+	switch v.Sort {
+	case SLoc:
+		u.assume(True, And(Le(Obj(v), st.alloc), Ge(Off(v), IntLit(0))))
+	case SSlice:
+		u.assume(True, And(Le(Obj(SPtr(v)), st.alloc), Le(IntLit(0), SLen(v)), Le(SLen(v), SCap(v))))
+	case SIface:
+		u.assume(True, Le(Obj(IVal(v)), st.alloc))
+	}
 	if key, ok := u.termOrigin[xv.S]; ok && v.Sort == SLoc {
 		u.assume(True, Implies(present, Neq(v, NilLoc)))
 		u.typeInvUsed[key+"{}"]++
@@ -1280,4 +1292,144 @@ func (fr *Frame) havocPointerArgs(fn *ssa.Function, args []Term, argVals []ssa.V
 		u.recordWriteContract(fr, k)
 	}
 	return post
+}
+
+// deterministicLibPkgs: read-only library packages whose functions are functions of their argument values (no
+// clock, no randomness, no environment). Results of value sorts (integers, booleans, strings, byte strings) of such
+// a call are modelled as an uninterpreted function of the argument values, so two calls with equal arguments agree.
+// Results with identity (pointers, errors, slices of non-bytes) stay unconstrained.
+var deterministicLibPkgs = map[string]bool{
+	"fmt": true, "strconv": true, "strings": true, "bytes": true, "path": true, "encoding/base64": true, "crypto/md5": true,
+	"unicode": true, "unicode/utf8": true, "net/url": true, "net/textproto": true, "mime": true,
+}
+
+var deterministicLibFuncs = map[string]bool{
+	"path/filepath.Join": true, "path/filepath.Base": true, "path/filepath.Dir": true, "path/filepath.Clean": true,
+	"path/filepath.Ext": true, "path/filepath.ToSlash": true, "path/filepath.FromSlash": true, "path/filepath.IsAbs": true,
+}
+
+func valueSort(s Sort) bool { return s == SInt || s == SBool || s == SStr || s == SBytes }
+
+func (fr *Frame) deterministicLibResults(fn *ssa.Function, args []Term, argVals []ssa.Value, st *State) ([]Term, bool) {
+	u := fr.u
+	pp := fnPkgPath(fn)
+	if !deterministicLibPkgs[pp] && !deterministicLibFuncs[fn.String()] {
+		return nil, false
+	}
+	results := fn.Signature.Results()
+	any := false
+	for i := 0; i < results.Len(); i++ {
+		if valueSort(u.w.sortOf(results.At(i).Type())) {
+			any = true
+		}
+	}
+	if !any || len(argVals) != len(args) {
+		return nil, false
+	}
+	var ts []Term
+	var dynTypes []string
+	for i, a := range args {
+		if valueSort(a.Sort) {
+			ts = append(ts, a)
+			continue
+		}
+		// a variadic argument array built at this call site: its elements, if they are values
+		elems, tys, ok := fr.varargElems(argVals[i])
+		if !ok {
+			return nil, false
+		}
+		ts = append(ts, elems...)
+		dynTypes = append(dynTypes, tys...)
+	}
+	var sorts []string
+	for _, t := range ts {
+		sorts = append(sorts, string(t.Sort))
+	}
+	sig := strings.Join(sorts, ",")
+	if len(dynTypes) > 0 {
+		sig += ";" + strings.Join(dynTypes, ",")
+	}
+	var res []Term
+	for i := 0; i < results.Len(); i++ {
+		t := results.At(i).Type()
+		rs := u.w.sortOf(t)
+		if !valueSort(rs) {
+			r := u.fresh("lib", rs)
+			fr.assumeTypeInv(st, r, t)
+			res = append(res, r)
+			continue
+		}
+		name := quoteSym(fmt.Sprintf("lib:%s/%s#%d", fn.String(), sig, i))
+		u.declareFun(name, sorts, rs)
+		var r Term
+		if len(ts) == 0 {
+			r = Term{name, rs}
+		} else {
+			r = mk(rs, name, ts...)
+		}
+		r = u.define("libv", r)
+		fr.assumeTypeInv(st, r, t)
+		res = append(res, r)
+	}
+	u.note("deterministic library function modelled as an uninterpreted function of its argument values: %s", fn.String())
+	return res, true
+}
+
+// varargElems: v is `slice t[:]` of a `new [n]T (varargs)` array filled by stores in the same block; returns the
+// stored values when each is a value (or a value boxed into an interface).
+func (fr *Frame) varargElems(v ssa.Value) ([]Term, []string, bool) {
+	if c, ok := v.(*ssa.Const); ok && c.Value == nil {
+		return nil, nil, true // nil slice: no variadic arguments
+	}
+	sl, ok := v.(*ssa.Slice)
+	if !ok || sl.Low != nil || sl.High != nil {
+		return nil, nil, false
+	}
+	al, ok := sl.X.(*ssa.Alloc)
+	if !ok || al.Comment != "varargs" {
+		return nil, nil, false
+	}
+	arr, ok := al.Type().Underlying().(*types.Pointer).Elem().Underlying().(*types.Array)
+	if !ok {
+		return nil, nil, false
+	}
+	out := make([]Term, arr.Len())
+	tys := make([]string, arr.Len())
+	found := make([]bool, arr.Len())
+	for _, ref := range *al.Referrers() {
+		ia, ok := ref.(*ssa.IndexAddr)
+		if !ok {
+			continue
+		}
+		c, ok := ia.Index.(*ssa.Const)
+		if !ok {
+			return nil, nil, false
+		}
+		k := int(c.Int64())
+		for _, r2 := range *ia.Referrers() {
+			stv, ok := r2.(*ssa.Store)
+			if !ok || stv.Addr != ia {
+				return nil, nil, false
+			}
+			val := stv.Val
+			if mi, ok := val.(*ssa.MakeInterface); ok {
+				val = mi.X
+			}
+			t := fr.val(val)
+			if !valueSort(t.Sort) {
+				return nil, nil, false
+			}
+			if k < 0 || k >= len(out) || found[k] {
+				return nil, nil, false
+			}
+			out[k], found[k] = t, true
+			tys[k] = val.Type().String()
+		}
+	}
+	for _, f := range found {
+		if !f {
+			return nil, nil, false
+		}
+	}
+	return out, tys, true
 }
